@@ -53,7 +53,9 @@ impl Reg {
             Reg::EU868 => (863_000_000, 870_000_000),
             Reg::EU433 => (433_050_000, 434_790_000),
             Reg::IN865 => (865_000_000, 867_000_000),
-            Reg::AS923_1 | Reg::AS923_2 | Reg::AS923_3 | Reg::AS923_4 => (915_000_000, 928_000_000),
+            Reg::AS923_1 | Reg::AS923_2 | Reg::AS923_3 => (915_000_000, 928_000_000),
+            // RP002: end-devices of group AS923-4 operate in the 917 to 920 MHz band
+            Reg::AS923_4 => (917_000_000, 920_000_000),
             Reg::US915 => (902_000_000, 928_000_000),
             Reg::AU915 => (915_000_000, 928_000_000),
         }
